@@ -143,7 +143,7 @@ CHECKS = {
  "C20": dict(
   engine="sched",
   category="exploration",
-  text="Cooperative scheduler over real threads using the wallet_lock! hook: exactly one thread runs between wallet-lock acquisitions; one refresh/scan thread plus 1..3 operation threads (init, lock, receive, finalize, cancel, refresh) and the node event 'block accepted'. R + one lock-holding operation: every schedule enumerated; multi-section operations preemption-bounded; larger configurations sampled over the choice sequence. The projected final state and every operation's result class must equal those of some serial order of the same operations from the same on-disk start state. A running thread that neither parks nor finishes within 60 s => exit 2 with the schedule saved.",
+  text="Cooperative scheduler over real threads using the wallet_lock! hook: exactly one thread runs between wallet-lock acquisitions; one refresh/scan thread plus 1..3 operation threads (init, lock, receive, finalize, cancel, refresh) and the node event 'block accepted'. R + one lock-holding operation: every schedule enumerated; multi-section operations preemption-bounded (1 quick / 2 thorough) plus constructed three-preemption schedule families around the block event (part pat and saved regression schedules); larger configurations sampled over the choice sequence. The projected final state and every operation's result class must equal those of some serial order of the same operations from the same on-disk start state. A running thread that neither parks nor finishes within 60 s => exit 2 with the schedule saved.",
   design_ref="DESIGN.md §4 C20",
   technique="owned-schedule exploration (exhaustive for small configurations, proptest-sampled otherwise) + serialisability oracle against all serial orders",
   note=TRUST + "; interleavings only at wallet-lock acquisitions (all wallet state is behind that mutex); node-unreachable events and the Updater::run timing loop are not covered"),
@@ -187,7 +187,7 @@ m = {
  ],
  "checks": checks,
  "not_applicable": [{"property_id": p, "reason": NA.get(p, "check not built yet in this session (planned in DESIGN.md §4); not claimed")} for p in ids if p not in CHECKS],
- "notes": "Driver: ./check <id> --tier quick|thorough (VERIF_SEED honoured). Exit 0 held / 1 violation / 2 inconclusive / 3 harness error. Known findings: known_findings.json.",
+ "notes": "Driver: ./check <id> --tier quick|thorough (VERIF_SEED honoured). Every run first replays the saved inputs in harness/corpus/<id>/ and regress/<ID>/ (regression tier). Exit 0 held / 1 violation / 2 inconclusive / 3 harness error. Known findings: known_findings.json.",
 }
 json.dump(m, open(os.path.join(ROOT, "MANIFEST.json"), "w"), indent=1)
 print("checks:", [c["property_id"] for c in checks])
